@@ -140,9 +140,23 @@ pub uninterp spec fn sp_is_module_file(uri: Uri) -> bool;
 
 /// the real `should_process` of didOpen / didChange: already known to the analysis, or a workspace file
 pub open spec fn accepts(a: St, u: Uri) -> bool { a.known.contains(u) || sp_is_workspace_file(u) }
-/// the real didClose: the file is gone from the disk, or the analysis knows the document but it belongs to no workspace / library
+/// the real didClose, removal branches: the file is gone from the disk, or the analysis knows the document but it belongs to no workspace / library
 pub open spec fn close_removes(a: St, u: Uri) -> bool {
     (sp_path(u) matches Some(p) && !sp_on_disk(p)) || (a.known.contains(u) && !sp_is_module_file(u))
+}
+/// read_file_with_encoding: the decoded content of the file, None when it cannot be read / decoded (the file system, uninterpreted)
+pub uninterp spec fn sp_disk_text(p: PathBuf) -> Option<Seq<char>>;
+/// What the real didClose does to the analysis ("a closed document is what its file holds"):
+///   the file is not on disk                                   -> the document is removed
+///   (else) the analysis does not know the document            -> nothing (there is nothing to forget)
+///   (else) known, but it belongs to no workspace / library    -> removed
+///   (else) known workspace / library file with a path         -> the analysis gets the DISK text, or the document is removed when the file
+///                                                                cannot be read: (u, sp_disk_text(p)) is an update for Some, a removal for None
+///   (else) known module WITHOUT a file path                   -> nothing (the module index keys modules by path; see not_covered)
+pub open spec fn close_effect(a: St, u: Uri) -> Option<Eff> {
+    if close_removes(a, u) { Some((u, None)) }
+    else if !a.known.contains(u) { None }
+    else { match sp_path(u) { Some(p) => Some((u, sp_disk_text(p))), None => None } }
 }
 
 // ---- shims: tokio RwLock, the analysis, the managers (opaque; sequential reading of the locks: `read().await` / `write().await` give access) ----
@@ -208,6 +222,17 @@ impl EmmyLuaAnalysis {
             r matches Some(f) ==> f.sp_uri() == *uri,
     { unimplemented!() }
 }
+impl EmmyLuaAnalysis {
+    /// through the read guard: the current configuration (arbitrary)
+    #[verifier::external_body]
+    pub fn get_emmyrc(&self) -> Arc<Emmyrc> { unimplemented!() }
+}
+/// emmylua_code_analysis::read_file_with_encoding (vfs/loader.rs): `fs::read` + decoding with the configured encoding; None when the file cannot
+/// be read or decoded. The RESULT is the uninterpreted disk content of the path (whatever the encoding label is)
+#[verifier::external_body]
+pub fn read_file_with_encoding(path: &PathBuf, encoding: &String) -> (r: Option<String>)
+    ensures text_view(r) == sp_disk_text(*path),
+{ unimplemented!() }
 impl RwLockWriteGuard<EmmyLuaAnalysis> {
     /// THE call the property is about: the analysis gets `text` for `uri` (vfs set_file_content + re-index). Logged in call order on the main
     /// loop, as a deferred effect inside a spawned task. (`text == None` empties the document but keeps its file id: no handler under proof
@@ -334,7 +359,7 @@ pub open spec fn inline_post(a: St, b: St, n: Note) -> bool {
     match n {
         Note::Open(u, t) => if accepts(a, u) { now(a, b, (u, Some(t))) } else { b == a },
         Note::Change(u, t) => if accepts(a, u) { now(a, b, (u, Some(t))) } else { b == a },
-        Note::Close(u) => if close_removes(a, u) { now(a, b, (u, None)) } else { b == a },
+        Note::Close(u) => match close_effect(a, u) { Some(e) => now(a, b, e), None => b == a },
         Note::Other => b.applied == a.applied && b.known == a.known,
     }
 }
